@@ -27,10 +27,12 @@ pub(crate) mod verif_state {
             WakeCell::new(), WakeCell::new(), WakeCell::new(),
             WakeCell::new(), WakeCell::new(), WakeCell::new(),
         );
-        let mut ids = [0u64; K]; // requested id of the current future of the slot
-        let mut f0 = ManuallyDrop::new(ch.receive(StateId(0)));
-        let mut f1 = ManuallyDrop::new(ch.receive(StateId(0)));
-        let mut f2 = ManuallyDrop::new(ch.receive(StateId(0)));
+        // requested id of the current future of the slot: 0..3, NOT limited to ids this channel has published so far
+        // (a StateId obtained from another, more advanced channel is a legal argument)
+        let mut ids = [s.below(4) as u64, s.below(4) as u64, s.below(4) as u64];
+        let mut f0 = ManuallyDrop::new(ch.receive(StateId(ids[0])));
+        let mut f1 = ManuallyDrop::new(ch.receive(StateId(ids[1])));
+        let mut f2 = ManuallyDrop::new(ch.receive(StateId(ids[2])));
         if (p & P18) != 0 { arm_alloc(); }
         // model: publication log
         let mut c: u64 = 0; // number of published states = latest id
@@ -61,9 +63,8 @@ pub(crate) mod verif_state {
                 ever[i] = true;
                 let f = match i { 0 => &mut f0, 1 => &mut f1, _ => &mut f2 };
                 if !alive[i] {
-                    // a new receive; the requested id is one that exists so far (0 = "anything")
+                    // a new receive; any requested id 0..3 (0 = "anything"; possibly ahead of the channel)
                     let id = s.below(4) as u64;
-                    s.assume(id <= c);
                     ids[i] = id;
                     *f = ManuallyDrop::new(ch.receive(StateId(id)));
                     alive[i] = true;
@@ -139,7 +140,6 @@ pub(crate) mod verif_state {
                 closed = true;
             } else {
                 let id = s.below(4) as u64;
-                s.assume(id <= c);
                 let newer = c > 0 && id < c;
                 match ch.try_receive(StateId(id)) {
                     Some((sid, t)) => {
